@@ -1,7 +1,7 @@
 #!/usr/bin/env python3
 """Prepare a round of sub-agent work: scratch worktrees of /repo and one prompt file per property.
 
-usage: mk_prompts.py seed    <base dir> <flavour: unusual|coordinated|disguised|feature|subtle|modern|perf|edge|history|mixed> [Cxx ...]
+usage: mk_prompts.py seed    <base dir> <flavour: unusual|coordinated|disguised|feature|subtle|modern|perf|edge|history|cooperating|stdlib|mixed> [Cxx ...]
        mk_prompts.py neutral <base dir> <flavour: small|medium|large|modern|perf> [Cxx ...]
 
 Each sub-agent gets ONLY the text of one property (from properties.jsonl) and its own scratch git worktree
@@ -61,6 +61,8 @@ FLAVOURS["edge"] = '''Flavour for this property: wrong only AT AN EDGE of the pr
 FLAVOURS["history"] = '''Flavour for this property: wrong only for a particular HISTORY or SEQUENCE of calls. Each change must give exactly the original result whenever an object is used once, freshly constructed - and break the property only on a second or later use, or for a particular order of calls: an object (message, container, header, SA key object, hash / cipher object, EAP packet, attribute map, builder target) that is decoded into, encoded, protected, or set TWICE; decoding into a struct that already holds data from an earlier decode; encoding after a decode versus after construction; a setter called again with a smaller or larger value; two SAs or two messages built from the same input slices; a derived field or cache that is not recomputed; a slice that is extended in place the second time; a Reset that is missing or in the wrong place so that the first use is right and the next one is not; an error on one call that leaves the object half-updated for the next. The existing tests construct fresh objects nearly everywhere, so such changes keep them green. 1-25 changed lines. State clearly in NOTES.md the shortest sequence of calls that shows the break.'''
 
 FLAVOURS["cooperating"] = '''Flavour for this property: change A consists of TWO COOPERATING SITES that each look fine alone. It has two hunks in different functions (or files): a helper and one of its callers, a constructor and a consumer of the constructed object, a constant / table and the code that uses it, a setter and a getter, a producer of a slice and the code that keeps it. Each hunk taken by itself is behaviour-preserving (or even an improvement) - e.g. a helper now returns a sub-slice of its argument "because every caller copies anyway" and, elsewhere, one caller drops its "redundant" copy; a length check is moved from the callee into the callers and one caller is forgotten; a default is changed in a constructor and a consumer still assumes the old one; a field becomes lazily initialised and one reader bypasses the accessor; an error is now reported through a second return value and one caller ignores it - and only the combination breaks the property. Say in NOTES.md why each hunk alone is harmless. Change B manifests only under a FAULT or a particular INTERLEAVING, if the property admits one: the random source or a callee failing at a particular point, an error path that leaves an object half-updated or returns a nil error together with a partial result, a failed verification after which state was already modified, a recover() that swallows something, two goroutines using independent objects that now share something hidden (a package-level scratch buffer, cache, sync.Pool entry, lazily initialised table, a hash object stored in a registry). If the property admits neither, make B a second two-site change. 4-40 changed lines each.'''
+
+FLAVOURS["stdlib"] = '''Flavour for this property: a LIBRARY CALL swapped for a NEAR-EQUIVALENT. Each change replaces (or introduces) a call into the Go standard library or into github.com/pkg/errors by another one that a maintainer would consider equivalent or better, and that IS equivalent except in a corner which breaks the property: io.ReadFull versus Read / io.ReadAtLeast / bufio Peek+Discard; rand.Read versus io.ReadFull(rand.Reader) versus rand.Int versus math/rand; big.Int.Bytes versus FillBytes versus Text/SetString; bytes.Equal versus hmac.Equal versus subtle.ConstantTimeCompare versus bytes.Compare versus bytes.HasPrefix; append versus copy versus bytes.Buffer versus bytes.Clone / slices.Clone / slices.Grow / slices.Concat; sort.Slice versus sort.SliceStable versus slices.Sort versus a map range; binary.BigEndian.PutUintN / UintN versus binary.Write / binary.Read versus AppendUintN versus LittleEndian or a different width; hash.Hash.Sum(nil) versus Sum(buf) versus sha256.Sum256; hmac.New kept and Reset versus created anew; strings / bytes conversion helpers (TrimRight, Trim, Fields, ToLower, EqualFold, utf8 handling) applied to octet strings; errors.Wrap / Wrapf / WithMessage / fmt.Errorf / errors.Join on a possibly nil error; strconv / fmt formatting used to build a registry key; copy-on-assign of arrays versus slices; min / max / clear builtins. The diff should look like a modernisation or simplification commit (2-25 changed lines); say in NOTES.md exactly which documented difference between the two calls is responsible.'''
 
 NEUTRAL_SMALL = '''You are helping to evaluate a verification effort by playing the role of a careful maintainer who REFACTORS code without changing behaviour. ''' + HEAD + '''
 Your task: produce FOUR independent, realistic, BEHAVIOUR-PRESERVING changes (call them a, b, c, d) to the library's non-test source inside the code this property is anchored in. Each change on its own must
